@@ -73,6 +73,17 @@ def generate(rng, tier):
             ops.append({"t": round(max(0.012, t_close + rng.choice([-0.3, -0.13, -0.05, -0.001, 0.0, 0.02, 0.1, 0.13, 0.2,
                                                                     0.26])), 6),
                         "op": "unregister", "h": "V", "name": s_["name"]})
+    if not startup and t_close > 1.2 and rng.random() < 0.15:
+        # the application updates a service shortly before it closes the instance (the update takes an address away, or
+        # gives the host another one): what the update promised to withdraw has to be withdrawn all the same
+        s2 = dict(sv[0])
+        s2["addrs"] = rng.choice([["10.0.1.1"], ["fe80::1:9"], ["10.0.1.1", "fe80::1:1"]])
+        s2["addrs"] = [a for a in s2["addrs"] if a not in sv[0]["addrs"]] or ["10.66.0.1"]
+        s2["port"] = sv[0]["port"] + 1
+        for o in ops:
+            if o["op"] == "register" and o["svc"]["name"] == sv[0]["name"]:
+                o["t"] = 0.01  # (registered long before, so that the update is an update)
+        ops.append({"t": round(t_close - rng.choice([0.0000001, 0.001, 0.1, 0.3, 0.6]), 6), "op": "update", "h": "V", "svc": s2})
     nb = rng.choice([0, 1, 2, 3])
     for i in range(nb):
         ops.append({"t": round(rng.choice([0.02, max(0.02, t_close - 0.08), max(0.02, t_close - 5.0), t_close - 0.001])
@@ -509,9 +520,10 @@ def _oracle(w, drv, sc, st, probe, stats, out):
         for r in tx.msg.records():
             if r.type == wire.T_NSEC:
                 continue
-            if r.ttl > 0 and r.flush and tx.multicast:
-                # a unique record announced with the cache-flush bit replaces what was announced before for that
-                # name and type (an update): the replaced version needs no goodbye
+            if r.flush and tx.multicast:
+                # a unique record multicast with the cache-flush bit - an announcement, or the goodbye of the version
+                # that replaced it - retires what was announced before for that name and type: the replaced version
+                # needs no goodbye of its own
                 for old_ident in [i for i in pos if i[:3] == r.ident()[:3] and i != r.ident()]:
                     del pos[old_ident]
                     gb.pop(old_ident, None)
